@@ -102,6 +102,9 @@ fn small_poly_case(grid: i64, len: u32) -> impl Fn(&mut Src, &mut Ctx) -> Result
 /// their neighbours. Produces L, U, T and staircase shapes; simple by construction.
 pub fn gen_histogram(src: &mut Src, scale: i64) -> Vec<P> {
     let ncol = src.usize_in(1, 6);
+    gen_histogram_n(src, scale, ncol)
+}
+pub fn gen_histogram_n(src: &mut Src, scale: i64, ncol: usize) -> Vec<P> {
     let mut cols: Vec<(i64, i64, i64)> = vec![]; // (width, bottom, top)
     let (mut b, mut t) = (src.i64_in(0, 4), 0);
     t = b + src.i64_in(1, 6);
@@ -222,8 +225,20 @@ fn gen_big_polygon(src: &mut Src) -> (Vec<P>, &'static str) {
         _ => (gen_star(src), "star-shaped"),
     }
 }
+/// Outlines of 60 to several hundred vertices (a pad ring, a merged well): the answer may not depend on how
+/// many vertices the polygon has
+fn many_vertex_case(src: &mut Src, ctx: &mut Ctx) -> Result<(), String> {
+    let ncol = *src.pick(&[15usize, 16, 17, 31, 32, 33, 40, 63, 64, 65, 80, 128, 129]);
+    let scale = if src.bool() { 1 } else { 4 };
+    let h = gen_histogram_n(src, scale, ncol);
+    let v = if src.prob(1, 3) { chamfer(src, &h) } else { h };
+    check_big(v, "many vertices", ctx)
+}
 fn big_poly_case(src: &mut Src, ctx: &mut Ctx) -> Result<(), String> {
     let (v, family) = gen_big_polygon(src);
+    check_big(v, family, ctx)
+}
+fn check_big(v: Vec<P>, family: &'static str, ctx: &mut Ctx) -> Result<(), String> {
     if !G::is_simple(&v) {
         ctx.excluded("generated polygon not simple (construction fallback)");
         return Ok(());
@@ -452,6 +467,7 @@ fn run(run: &mut Run) {
         run.enumerate("polygons-4x4-len5", 16u64.pow(5), &small_poly_case(4, 5));
     }
     run.explore("polygons-random", run.tier.pick(100_000, 1_000_000), 200, &big_poly_case);
+    run.explore("polygons-many-vertices", run.tier.pick(1_500, 20_000), 700, &many_vertex_case);
     run.explore("polygons-large-coordinates", run.tier.pick(60_000, 600_000), 60, &large_poly_case);
     run.explore("paths", run.tier.pick(100_000, 800_000), 60, &path_case);
 }
@@ -464,6 +480,7 @@ fn case(sub: &str) -> Option<Box<CaseFn<'static>>> {
         "polygons-5x5-len5" => Some(Box::new(small_poly_case(5, 5))),
         "polygons-4x4-len5" => Some(Box::new(small_poly_case(4, 5))),
         "polygons-random" => Some(Box::new(big_poly_case)),
+        "polygons-many-vertices" => Some(Box::new(many_vertex_case)),
         "paths" => Some(Box::new(path_case)),
         "polygons-large-coordinates" => Some(Box::new(large_poly_case)),
         _ => None,
